@@ -295,4 +295,8 @@ example : NoAliasKeys [("unique", "_unique"), ("rel", "remote_field")]
       · simp [h2] at h
   rcases this with ⟨_, e⟩ | ⟨_, e⟩ <;> subst e <;> decide
 
+/-- an index stored without a `fields` entry (an expression-only index) is read back without one: the loader's
+default for the missing key is `None`, not an empty list (read by the translator on every run) -/
+theorem C06_source_index_fields_default : DEvo.Generated.indexFieldsDefault = "None" := by decide
+
 end DEvo.Props.C06
